@@ -149,6 +149,13 @@ def custom_outcomes(KL, name, obj):
         cap = {'A': 1, 'B': 1, 'C': 1}
         return [KL._try(lambda: obj.evaluate({('A',): 6, ('B',): 2, ('C',): 1}, 2, max_seats=dict(cap))),
                 KL._try(lambda: obj.evaluate({('A', 'B'): 5, ('B',): 1, ('C', 'B'): 2}, 2, max_seats=dict(cap)))]
+    if name == 'property_kind':       # parties whose property 'kind' is a str, an int, None, a bool, a tuple, or missing
+        import votelib.candidate as vc
+        kinds = [('Minor', 'minority', 40), ('Duo', 2, 80), ('Anon', None, 70), ('Flag', True, 75), ('Pair', ('x', 1), 65), ('Other', 'x', 60)]
+        votes = {vc.PoliticalParty('Big'): 500, vc.PoliticalParty('Mid'): 300}
+        for nm, kind, n in kinds:
+            votes[vc.PoliticalParty(nm, properties={'kind': kind})] = n
+        return [KL._try(lambda n=n: obj.evaluate(dict(votes), n)) for n in (10, 7)] + [KL._try(lambda: obj.evaluate(dict(votes)))]
     raise ValueError(name)
 
 
